@@ -32,11 +32,13 @@ Family == {c \in Cases : Near(c) /\ (~BodyVerb(c.verb) => (c.bshape = "string" /
           \cup {c \in DefaultCases : c.bcls = "ord" \/ c.ctype = "json"}
 
 \* rep: a repeated query parameter, oq: a proto3-optional one (presence counts)
-Fields(c) == IF c.route = "default" THEN <<"b">> ELSE IF BodyVerb(c.verb) THEN <<"p", "q", "rq", "rep", "oq", "b">> ELSE <<"p", "q", "rq", "rep", "oq">>
+Fields(c) == IF c.route = "default" THEN <<"b">> ELSE IF BodyVerb(c.verb) THEN <<"p", "q", "rq", "rep", "oq", "rrep", "ropt", "b">> ELSE <<"p", "q", "rq", "rep", "oq", "rrep", "ropt">>
 RpcOf(c) == [name |-> "M", verb |-> c.verb, fields |-> Fields(c), pathVars |-> IF c.route = "default" THEN <<>> ELSE <<"p">>,
              query |-> IF c.route = "default" THEN <<>>
                        ELSE <<[field |-> "q", name |-> "q", required |-> FALSE], [field |-> "rq", name |-> "rq", required |-> TRUE],
-                              [field |-> "rep", name |-> "rep", required |-> FALSE], [field |-> "oq", name |-> "oq", required |-> FALSE]>>]
+                              [field |-> "rep", name |-> "rep", required |-> FALSE], [field |-> "oq", name |-> "oq", required |-> FALSE],
+                              \* required and repeated / required and proto3 optional
+                              [field |-> "rrep", name |-> "rrep", required |-> TRUE], [field |-> "ropt", name |-> "ropt", required |-> TRUE]>>]
 ValOf(c) == [i \in DOMAIN Fields(c) |-> [k |-> Fields(c)[i], v |-> "V_" \o Fields(c)[i]]]
 CallOf(c) == [rpc |-> RpcOf(c), value |-> ValOf(c), zero |-> [i \in DOMAIN Fields(c) |-> [k |-> Fields(c)[i], v |-> "Z_" \o Fields(c)[i]]],
               ctype |-> c.ctype, resp |-> "RESP", handler |-> c.handler, hdrs |-> <<>>]
